@@ -17,9 +17,13 @@ def plan(tier, seed):
     ladder = [(-1, 8), (0, 9), (1, 10), (2, 12), (7, 17), (19, 29)] if tier == 'quick' else \
         [(-1, 8), (-1, 9), (0, 9), (0, 10), (0, 11), (1, 10), (1, 11), (2, 12), (2, 13), (4, 14), (7, 17), (9, 20), (18, 29), (19, 29)]
     for rc, b in ladder:
-        specs.append({'part': 'ladder', 'rc': rc, 'b': b})
+        if (rc, b) == (0, 9):
+            for f0 in range(12):
+                specs.append({'part': 'ladder', 'rc': rc, 'b': b, 'face': f0})
+        else:
+            specs.append({'part': 'ladder', 'rc': rc, 'b': b})
     n = 3500 if tier == 'quick' else 60000
-    for i in range(16 - len(specs) if tier == 'quick' else 24):
+    for i in range(7 if tier == 'quick' else 24):
         specs.append({'part': 'deep', 'n': n})
     return specs
 
@@ -103,7 +107,7 @@ def run_shard(spec, ctx):
     if spec['part'] == 'ladder':
         # large fan-outs (up to 4^10 per cell and beyond): count, distinctness, order, contiguity and parentage of the whole run
         rc, b = spec['rc'], spec['b']
-        c = 0 if rc == -1 else gen.cell_by_path(a5, ctx.rnd.randrange(12), None if rc == 0 else ctx.rnd.randrange(5),
+        c = 0 if rc == -1 else gen.cell_by_path(a5, spec.get('face', ctx.rnd.randrange(12)), None if rc == 0 else ctx.rnd.randrange(5),
                                                 gen.digits_pattern(ctx.rnd, max(0, rc - 1)))
         case = {'c': c, 'a': rc, 'b': b, 'r': rc, 'ladder': True}
         ctx.case((c, rc, b))
